@@ -519,6 +519,13 @@ impl WsClient {
     pub fn drop_abruptly(&mut self) {
         self.stream = None;
     }
+    /// end the connection with a frame the protocol layer rejects (handler: on_error, then on_close)
+    pub fn fail_with_broken_frame(&mut self) {
+        if let Some(s) = self.stream.as_ref() {
+            let _ = frame::write_broken(s.endpoint());
+        }
+        self.stream = None;
+    }
 }
 
 #[allow(dead_code)]
